@@ -198,6 +198,7 @@ func c10Conservation(e *Env, rg *Rig, lifecycle bool) {
 		}
 		_ = pos
 		last := map[uint32]*rtcp.SenderReport{}
+		lastIter := map[uint32]int{} // step at which the iteration that produced it began
 		for _, o := range rg.RTCPOut {
 			if o.app {
 				continue // RTCP the application wrote itself
@@ -205,7 +206,14 @@ func c10Conservation(e *Env, rg *Rig, lifecycle bool) {
 			for _, p := range o.pkts {
 				if sr, ok := p.(*rtcp.SenderReport); ok {
 					last[sr.SSRC] = sr
+					lastIter[sr.SSRC] = o.iter
 				}
+			}
+		}
+		lastWrite := map[uint32]int{} // step at which the last write on the stream returned
+		for _, w := range rg.Writes {
+			if w.ret > lastWrite[cfg.Local[w.stream].SSRC] {
+				lastWrite[cfg.Local[w.stream].SSRC] = w.ret
 			}
 		}
 		onlyReporters := true
@@ -222,8 +230,8 @@ func c10Conservation(e *Env, rg *Rig, lifecycle bool) {
 		}
 		// a final report after quiescence must have seen every write
 		for ssrc, n := range writes {
-			if sr := last[ssrc]; sr != nil && onlyReporters && !failed && countMembers(cfg.Kinds, "report_send") == 1 {
-				// the last tick happened after the last write (drain time >> interval)
+			if sr := last[ssrc]; sr != nil && onlyReporters && !failed && countMembers(cfg.Kinds, "report_send") == 1 && lastIter[ssrc] > lastWrite[ssrc] {
+				// (only a report whose iteration began after the last write had returned has seen everything)
 				if int(sr.PacketCount) != n || sr.OctetCount != octets[ssrc] {
 					e.Violatef("oracle", "c10:lost-update:sender-report", "SSRC %d: %d packets / %d octets written (also concurrently on the same stream), the sender report after quiescence says %d / %d", ssrc, n, octets[ssrc], sr.PacketCount, sr.OctetCount)
 				}
